@@ -308,6 +308,9 @@ REQ = C.REQUIRED
 
 def _typed(v, kind, st):
     if kind.tag == 'val': return v
+    if kind.tag == 'seq':
+        arr, n = seq_of(v, st)
+        return PSeq(arr, n, kind.elem or 'val', getattr(v, 'is_list', False))
     return kind.wrap(as_kind(v, kind, st))
 
 
